@@ -514,12 +514,16 @@ class PosPrinter:
             e["_off"] = self.n
             self.emit(e["kids"][0], 0 if e["kids"][0]["k"] == "recover" else 1)
             self.ws()
+            # layout is allowed around every token of the label list ( "//{" __ label __ "," __ label __ "}" )
             self.w("//{")
+            self.ws()
             for i, l in enumerate(e["labels"]):
                 if i:
+                    self.ws()
                     self.w(",")
                     self.ws()
                 self.w(l)
+            self.ws()
             self.w("}")
             self.ws()
             self.emit(e["kids"][1], 1)
